@@ -10,6 +10,9 @@ CLAUSE = ("TZ clause: on every path from a successful change_tz()/localtime_tz()
           "restore_tz restores from that saved copy; every path of change_tz/restore_tz that changed the variable calls tzset(); "
           "setenv/unsetenv/putenv/tzset are called nowhere else in libzvbi. Leap-day clause, structural part only: is_leap_year() "
           "receives tm_year + 1900.")
+CLAUSE = CLAUSE + (" In valid_pil_lto_to_time every path to the broken-down-time call adds the UTC offset to the reference time "
+                   "(the year is chosen in local time for either sign of the offset) and the result takes it out again; the two "
+                   "validity-window implementations (UTC offset / TZ string) draw the early-morning line at the same hour (< 4).")
 NOT_DECIDED = ("year inference, leap-day acceptance, validity-window lengths, overflow checks (numeric); "
                "libc setenv/tzset semantics and restore_tz's own ENOMEM path are trusted/documented exceptions.")
 
@@ -155,6 +158,8 @@ def run(ctx, run):
 
     # ---- RF-UNIT: struct tm years are offsets from 1900 -----------------------------
     _check_tm_year(ctx, run)
+    _offset_applied(ctx, run)
+    _sibling_thresholds(ctx, run)
 
     # positive example: the engine must see a leak in a known-leaky shape
     _selftest(ctx, run)
@@ -361,3 +366,80 @@ def _selftest(ctx, run):
     if not leaks or not clean:
         raise AnalysisBroken("self-test failed: RF-PAIR/TZ did not separate the leaking and the correct positive example")
     run.extra["positive_example"] = "selftest/pos/tz_leak.c: leak reported in leaky_pil_to_time, none in good_pil_to_time"
+
+
+def _offset_applied(ctx, run):
+    """valid_pil_lto_to_time: the nearest-year decision is taken on the *local* reference time:
+    every path from the entry to the broken-down-time call adds seconds_east to start, whatever
+    the sign of the offset; and the result takes the offset out again."""
+    from .. import atoms
+    f = ctx.prog.need("valid_pil_lto_to_time", "src/pdc.c")
+    run.touch(f)
+    east = f.params[2]["name"]
+    start = f.params[1]["name"]
+
+    def adds(ff, i):
+        e = ff.exprs[i]
+        if e["k"] != "asg" or e["op"] not in ("+=", "="):
+            return False
+        l = ff.exprs[ex.skip(ff, e["c"][0])]
+        if not (l["k"] == "ref" and l.get("name") == start):
+            return False
+        o = atoms.Operand(ff, e["c"][1])
+        return east in o.locals and (e["op"] == "+=" or start in o.locals)
+    calls = [(b, i) for b, i in flow.all_events(f) if f.exprs[i]["k"] == "call" and f.exprs[i].get("callee") in ("gmtime_r", "gmtime")]
+    if not calls:
+        raise AnalysisBroken("valid_pil_lto_to_time: gmtime_r call not found")
+    for b, i in calls:
+        # every path entry -> call passes an `adds` event: remove the blocks with such an event and test reachability
+        hit = {bid for bid, ev in flow.all_events(f) if adds(f, ev)}
+        blk_call = b
+        pos_ok = any(adds(f, ev) for ev in flow.events(f, blk_call) if flow.elem_pos(f)[ev][1] < flow.elem_pos(f)[i][1])
+        reach = flow.reach_from(f, f.entry, avoid=hit)
+        key = "RF-CORR:valid_pil_lto_to_time:offset-applied-before-year-decision"
+        if pos_ok or blk_call not in reach:
+            run.holds("RF-CORR", key, "every path to %s () passes `%s += %s`" % (f.exprs[i]["callee"], start, east), ex.loc(f, i))
+        else:
+            run.violation("RF-CORR", key, "a path reaches %s () without adding the UTC offset to the reference time: the month "
+                          "comparison that picks the year is then made in UTC, not in the local time of the PIL - within the offset "
+                          "of a month boundary the programme lands a year off" % f.exprs[i]["callee"], ex.loc(f, i),
+                          witness={"function": f.name})
+    rets = [i for b, i in flow.all_events(f) if f.exprs[i]["k"] == "ret" and f.exprs[i].get("c")
+            and east in atoms.Operand(f, f.exprs[i]["c"][0]).locals]
+    key = "RF-DEP:valid_pil_lto_to_time:offset-removed-from-result"
+    if rets:
+        run.holds("RF-DEP", key, "the successful return takes %s out of the result again" % east, ex.loc(f, rets[0]))
+    else:
+        run.violation("RF-DEP", key, "no return value of valid_pil_lto_to_time depends on the offset: the result is local time, not UTC",
+                      "%s:%d" % (f.file, f.line))
+
+
+def _sibling_thresholds(ctx, run):
+    """EN 300 231 9.3: a PIL hour before 04:00 belongs to the previous broadcast day.  The UTC-offset
+    and the TZ-string implementations of the validity window are siblings and must draw that line at
+    the same hour; so must their window length constants."""
+    P = ctx.prog
+    sibs = [P.need("valid_pil_lto_validity_window", "src/pdc.c"), P.need("valid_pil_validity_window", "src/pdc.c")]
+    sets = []
+    for f in sibs:
+        run.touch(f)
+        th = set()
+        for i, e in enumerate(f.exprs):
+            if e["k"] == "bin" and e["op"] in ("<", "<=", ">", ">="):
+                l = ex.pretty(f, e["c"][0])
+                c = ex.const(f, e["c"][1])
+                # VBI_PIL_HOUR (pil) expands to ((pil >> 6) & 0x1F)
+                if c is not None and ">> 6" in l and "31" in l.replace("0x1F", "31").replace("0x1f", "31"):
+                    th.add((e["op"], c))
+        sets.append(th)
+    key = "RF-TAB:validity-window:early-morning-hour"
+    if not sets[0] or not sets[1]:
+        raise AnalysisBroken("validity window siblings: hour threshold not found (%s)" % sets)
+    norm = [{(">=" if op == ">" else "<" if op == "<=" else op, c + 1 if op in (">", "<=") else c) for op, c in t} for t in sets]
+    if norm[0] == norm[1] and norm[0] == {("<", 4)}:
+        run.holds("RF-TAB", key, "both implementations treat PIL hours < 4 as the previous broadcast day", "%s:%d" % (sibs[0].file, sibs[0].line))
+    else:
+        run.violation("RF-TAB", key, "the two validity-window implementations draw the early-morning line differently (%s vs %s; "
+                      "EN 300 231: hour < 4): the same PIL gets windows of different length depending on how the time zone is "
+                      "given" % (sorted(sets[0]), sorted(sets[1])), "%s:%d" % (sibs[0].file, sibs[0].line),
+                      witness={"lto": sorted(sets[0]), "tz": sorted(sets[1])})
